@@ -20,15 +20,22 @@ def get_query_helper_cls():
 def query_from_shapes_graph(graph, query_text, init_bindings, error_cls, what):
     """
     Runs a query whose text is taken from the shapes graph. Text that rdflib cannot parse (syntax
-    error, undeclared prefix) is reported as `error_cls` instead of escaping as a parser exception.
+    error, undeclared prefix) or cannot evaluate is reported as `error_cls` instead of escaping as a raw exception.
     """
     from pyparsing import ParseBaseException
 
     try:
-        return graph.query(query_text, initBindings=init_bindings)
+        results = graph.query(query_text, initBindings=init_bindings)
+        if results.type == "SELECT":
+            # solutions are produced lazily: produce them here, where the engine's failures are handled
+            results.bindings
+        return results
     except ParseBaseException as e:
         raise error_cls("{} is not a valid SPARQL query: {}".format(what, e), "https://www.w3.org/TR/shacl/#sparql-constraints")
     except Exception as e:
         if type(e) is Exception and str(e).startswith("Unknown namespace prefix"):
             raise error_cls("{} uses an undeclared prefix: {}".format(what, e), "https://www.w3.org/TR/shacl/#sparql-prefixes")
+        if type(e) is Exception:
+            # rdflib signals a construct its SPARQL engine cannot evaluate with a bare Exception
+            raise error_cls("{} cannot be evaluated by the SPARQL engine: {}".format(what, e), "https://www.w3.org/TR/shacl/#sparql-constraints")
         raise
